@@ -1,6 +1,8 @@
 (* C08 -- the three formulations agree on the optimum of the same VRPTW.
    Property theorems only; proofs live in theories/Routes_facts.v (path-based part),
-   Routes_arc_facts.v and Routes_seq_facts.v (corollaries of C05 / C07).
+   Routes_arc_facts.v and Routes_seq_facts.v (corollaries of C05 / C07), Routes_close_facts.v (the views
+   proved for constructor-built sequence objects; sequence QUBOs with S = S_seq) and Routes_arcq_facts.v
+   (arc-based QUBO).
 
    Reference problem (theories/Routes.v): a solution of the VRPTW read in a path-based state st is a
    duplicate-free list R of routes (Path.valid_route, the route definition of the paper, capacity
@@ -8,10 +10,12 @@
    `total_cost st R`.  No minimum over a possibly empty set is formed: two problems are compared through
    the sets { v | some feasible solution has cost v }, which gives equal feasibility and equal optima. *)
 From Coq Require Import ZArith List Bool Lia.
-From VQ Require Import Base LinAlg Vrptw Vrptw_facts Path Path_facts Penalty Penalty_facts Routes Routes_facts
-                       Routes_views Routes_seq_facts Routes_arc_facts.
+From Coq Require Import Sorting.Permutation.
+From VQ Require Import Base LinAlg Vrptw Vrptw_facts Path Path_facts Penalty Penalty_facts Compose_facts
+                       Routes Routes_facts Routes_views Routes_seq_facts Routes_arc_facts
+                       Routes_close_facts Routes_arcq_facts.
 (* the arc and sequence developments are required without Import (inst, node_at, vars, valid_route, ... clash) *)
-From VQ Require Arc Arc_ref Arc_facts Arc_routes Seq Seq_facts.
+From VQ Require Arc Arc_ref Arc_facts Arc_routes Seq Seq_facts Compose_arc_facts Compose_seq_facts.
 Import ListNotations.
 Open Scope Z_scope.
 
@@ -126,6 +130,40 @@ Theorem C08_arc_equiv : forall (st : pstate) (I : Arc.inst) (v : Z),
 Proof. exact arc_equiv. Qed.
 Print Assumptions C08_arc_equiv.
 
+(* ... and its default-penalty QUBO (composition with C04_arc_exact, whose S = S_arc = sum |arc cost| *
+   len(time_points)^2 is proved to dominate the coefficient sum, C04_arc_coeff_bound).
+     Compose_arc_facts.arc_default_value I x   x'Qx + k for (Q, k) = get_qubo(False, None) on the arc data,
+                                               rho = S_arc + 1  (the subject of C04_arc_exact);
+     Compose_arc_facts.arc_qubo_min I x        x : nat -> Z is binary on 0..n-1 and minimises that value over
+                                               all binary vectors;
+     tab n x = [x 0; ...; x (n-1)]             the 0-1 LIST that C05 / C08_arc_equiv speak about (bridge between
+                                               the two representations: Routes_arcq_facts.arc_solution_of_vec,
+                                               vec_of_arc_solution);
+     moves_route r                             depot, destinations of all moves of the chain r but the last, depot.
+   Under the hypotheses of C08_arc_equiv, when the VRPTW is feasible:
+   (1) the binary minimisers are exactly the binary vectors that solve the arc program with the cost of an
+       optimal partition;
+   (2) the selected variables of a minimiser split (up to order) into depot-to-depot chains (C05's sroute)
+       whose node lists form an optimal partition, of cost = the QUBO minimum;
+   (3) the minimum equals the least partition cost. *)
+Theorem C08_arc_qubo : forall (st : pstate) (I : Arc.inst),
+  Arc.ig I = pg st -> Inv (pg st) -> NoDup (Arc.igrid I) -> no_depot_loop st ->
+  nlo (Path.node_at (pg st) 0) = 0 -> Arc_routes.pos_cc I -> capacity_free st ->
+  grid_complete st (Arc.igrid I) ->
+  (exists R, partition st R) ->
+  let n := Arc.num_variables I in
+  (forall x, Compose_arc_facts.arc_qubo_min I x <->
+     (Zbinary n x /\ exists R, optimal_partition st R /\ arc_solution I (tab n x) (total_cost st R))) /\
+  (forall x, Compose_arc_facts.arc_qubo_min I x ->
+     exists routes : list (list Arc.var),
+       Permutation (Arc.selected I (tab n x)) (concat routes) /\ Forall Arc_routes.sroute routes /\
+       optimal_partition st (map moves_route routes) /\
+       total_cost st (map moves_route routes) = Compose_arc_facts.arc_default_value I x) /\
+  (forall x R, Compose_arc_facts.arc_qubo_min I x -> optimal_partition st R ->
+     Compose_arc_facts.arc_default_value I x = total_cost st R).
+Proof. exact arc_qubo. Qed.
+Print Assumptions C08_arc_qubo.
+
 (* 3b. non-strict sequence-based object on the VRPTW graph (seq_view: same nodes, same arcs plus the depot
    self-arc of cost 0, vehicle costs 0) with V >= #customers and L >= #customers + 2 (and L >= 3, C07):
    every route partition R embeds, one route per vehicle padded with depot stays, as a walk assignment
@@ -158,6 +196,16 @@ Theorem C08_seq_view_of_constructor : forall st g' V L vc,
   seq_view st (Seq.mkInst g' V L vc).
 Proof. exact seq_view_of_constructor. Qed.
 Print Assumptions C08_seq_view_of_constructor.
+
+(* ... so for the object the non-strict constructor builds no view hypothesis is left *)
+Theorem C08_seq_nonstrict_le_constructor : forall (st : pstate) (g' : graph) (V L : nat) (vc : list Z) (v : Z),
+  Inv (pg st) -> (1 <= num_nodes st)%nat -> no_depot_loop st ->
+  Seq.seq_init false (pg st) = Ok g' -> (forall k, nth k vc 0 = 0) ->
+  (3 <= L)%nat -> (num_nodes st - 1 <= V)%nat -> (num_nodes st - 1 + 2 <= L)%nat ->
+  (exists R, partition st R /\ total_cost st R = v) ->
+  exists x, seq_solution (Seq.mkInst g' V L vc) x v.
+Proof. exact seq_nonstrict_le_constructor. Qed.
+Print Assumptions C08_seq_nonstrict_le_constructor.
 
 (* 3c. strict object (seq_view_strict: its arcs other than the depot self-arc are arcs of the VRPTW with the
    same data; strict_graph / windows_ok: the hypotheses of C07_strict_time), depot window starting at or
@@ -199,6 +247,55 @@ Proof.
 Qed.
 Print Assumptions C08_strict_feasible_implies_feasible.
 
+(* 3c'. seq_view_strict, strict_graph and windows_ok are PROVED for the object that
+   SequenceBasedRoutingProblem(vrptw, strict=True) builds from the VRPTW graph (at least one node, vehicle
+   costs 0): the constructor's loop re-adds the stored arcs by the names of their endpoints through the strict
+   add_arc, so every arc it stores is an arc of the VRPTW under the same key with the same data
+   (Routes_close_facts.refilter_sub); then set_depot on the first node stores the depot self-arc (0, 0). *)
+Theorem C08_seq_strict_view_of_constructor : forall st g' V L vc,
+  Inv (pg st) -> nodes (pg st) <> [] ->
+  Seq.seq_init true (pg st) = Ok g' -> (forall v, nth v vc 0 = 0) ->
+  seq_view_strict st (Seq.mkInst g' V L vc) /\
+  Seq_facts.strict_graph g' /\ Seq_facts.windows_ok g'.
+Proof. exact seq_view_strict_of_constructor. Qed.
+Print Assumptions C08_seq_strict_view_of_constructor.
+
+(* hence C08_seq_projection / C08_seq_strict_ge / C08_strict_feasible_implies_feasible for constructor-built
+   strict objects, without any hypothesis on the sequence object *)
+Theorem C08_seq_projection_constructor :
+  forall (st : pstate) (g' : graph) (V L : nat) (vc : list Z) (W : nat -> nat -> nat),
+  Inv (pg st) -> (1 <= num_nodes st)%nat ->
+  Seq.seq_init true (pg st) = Ok g' -> (forall k, nth k vc 0 = 0) ->
+  no_depot_loop st -> capacity_free st -> 0 <= nlo (Path.node_at (pg st) 0) -> (2 <= L)%nat ->
+  let I := Seq.mkInst g' V L vc in
+  Seq.walk_assignment I W ->
+  partition st (walk_routes I W) /\ total_cost st (walk_routes I W) = seq_cost I W.
+Proof. exact seq_strict_project_constructor. Qed.
+Print Assumptions C08_seq_projection_constructor.
+
+Theorem C08_seq_strict_ge_constructor :
+  forall (st : pstate) (g' : graph) (V L : nat) (vc : list Z) (v : Z),
+  Inv (pg st) -> (1 <= num_nodes st)%nat ->
+  Seq.seq_init true (pg st) = Ok g' -> (forall k, nth k vc 0 = 0) ->
+  no_depot_loop st -> capacity_free st -> 0 <= nlo (Path.node_at (pg st) 0) -> (3 <= L)%nat ->
+  (exists x, seq_solution (Seq.mkInst g' V L vc) x v) ->
+  exists R, partition st R /\ total_cost st R = v.
+Proof. exact seq_strict_ge_constructor. Qed.
+Print Assumptions C08_seq_strict_ge_constructor.
+
+Theorem C08_strict_feasible_implies_feasible_constructor :
+  forall (st : pstate) (g' : graph) (V L : nat) (vc : list Z),
+  Inv (pg st) -> (1 <= num_nodes st)%nat ->
+  Seq.seq_init true (pg st) = Ok g' -> (forall k, nth k vc 0 = 0) ->
+  no_depot_loop st -> capacity_free st -> 0 <= nlo (Path.node_at (pg st) 0) -> (3 <= L)%nat ->
+  (exists x v, seq_solution (Seq.mkInst g' V L vc) x v) -> exists R, partition st R.
+Proof.
+  intros st g' V L vc HI Hn Hinit Hvc Hl Hc Hd HL (x & v & Hx).
+  destruct (seq_strict_ge_constructor st g' V L vc v HI Hn Hinit Hvc Hl Hc Hd HL (ex_intro _ x Hx)) as (R & HR & _).
+  exists R; exact HR.
+Qed.
+Print Assumptions C08_strict_feasible_implies_feasible_constructor.
+
 (* 3d. the default-penalty QUBOs (C04).  For any constrained 0-1 program s = (A, b, R, c, Qo) with R >= 0,
    S >= the sum of the |objective coefficients| and a feasible point: the binary minimisers of
    get_qubo(False, None) built with rho = S + 1 are the constrained optima and the minimum is the optimal
@@ -215,18 +312,15 @@ Theorem C08_qubo_of_program : forall (s : zsys) (S : Z),
 Proof. exact sys_default_exact. Qed.
 Print Assumptions C08_qubo_of_program.
 
-(* Sequence-based QUBOs.  FULL statements: the two theorems below with
-     S := S_seq (Z.of_nat (Seq.iL I)) (arc costs of Seq.ig I) (Seq.ivc I)  = get_sufficient_penalty(False).
-   PROVED (_partial): the same for every S with  coeff_sum n (cvec I) (Qo I) <= S  as a hypothesis.
-   MISSING: `coeff_sum (Seq.num_variables I) (Seq.cvec I) (Seq.Qo I) <= S_seq ...` for the builders of
-   Seq.v.  C04_S_seq proves this bound for objectives given as (lin, quad) entry lists with pairwise
-   distinct (vehicle, position, arc) triples; that Seq.c_entries / Seq.q_entries have that shape is not a
-   theorem (C04's correspondence evaluates it on every instance: its tags 7-9).
-   Arc-based QUBO: not restated here at all -- C04_arc gives "QUBO minimum = constrained optimum" for
-   function vectors over the (arc index, s, t) structure, C05 / C08_arc_equiv speak about 0-1 lists over
-   Arc.vars; the translation between the two is not proved.  Both gaps are covered by the runtime oracle
-   only (brute-force minimisation of the real QUBOs, n <= 20). *)
-Theorem C08_seq_nonstrict_qubo_le_partial : forall (st : pstate) (I : Seq.inst) (E : list (nat * nat)) (S : Z),
+(* Sequence-based QUBOs.
+     seq_sys I E          the program (A, b, R, c, Qo) of the sequence object, E = the appended entries of R;
+     S                    = S_seq L (arc costs in dict order) (vehicle costs) = get_sufficient_penalty(False),
+                            rho = S + 1.  That S dominates the sum of the |objective coefficients| of Seq.v's
+                            builders is C04_seq_coeff_bound (Compose_seq_facts.seq_coeff_bound_model), which needs
+                            len(vehicle_cost) = max_vehicles (kept by set_max_vehicles / make_feasible).
+   First for every S that bounds the coefficient sum (the former `_partial` statements, kept because they are
+   more general), then closed with S = S_seq, then for constructor-built objects. *)
+Theorem C08_seq_nonstrict_qubo_le_for_bound : forall (st : pstate) (I : Seq.inst) (E : list (nat * nat)) (S : Z),
   Inv (pg st) -> no_depot_loop st -> seq_view st I ->
   (1 <= num_nodes st)%nat -> (3 <= Seq.iL I)%nat ->
   (num_nodes st - 1 <= Seq.iV I)%nat -> (num_nodes st - 1 + 2 <= Seq.iL I)%nat ->
@@ -236,9 +330,9 @@ Theorem C08_seq_nonstrict_qubo_le_partial : forall (st : pstate) (I : Seq.inst) 
     sys_qubo_value (seq_sys I E) S x <= total_cost st R /\
     exists W, Seq.walk_assignment I W /\ seq_cost I W = sys_qubo_value (seq_sys I E) S x.
 Proof. exact seq_nonstrict_qubo_le. Qed.
-Print Assumptions C08_seq_nonstrict_qubo_le_partial.
+Print Assumptions C08_seq_nonstrict_qubo_le_for_bound.
 
-Theorem C08_seq_strict_qubo_ge_partial : forall (st : pstate) (I : Seq.inst) (E : list (nat * nat)) (S : Z),
+Theorem C08_seq_strict_qubo_ge_for_bound : forall (st : pstate) (I : Seq.inst) (E : list (nat * nat)) (S : Z),
   no_depot_loop st -> seq_view_strict st I ->
   Seq_facts.strict_graph (Seq.ig I) -> Seq_facts.windows_ok (Seq.ig I) ->
   capacity_free st -> 0 <= nlo (Path.node_at (pg st) 0) ->
@@ -249,7 +343,68 @@ Theorem C08_seq_strict_qubo_ge_partial : forall (st : pstate) (I : Seq.inst) (E 
   forall x, sys_qubo_min (seq_sys I E) S x ->
     exists R, partition st R /\ total_cost st R = sys_qubo_value (seq_sys I E) S x.
 Proof. exact seq_strict_qubo_ge. Qed.
-Print Assumptions C08_seq_strict_qubo_ge_partial.
+Print Assumptions C08_seq_strict_qubo_ge_for_bound.
+
+(* closed: S = get_sufficient_penalty(False).  A minimiser of the non-strict default-penalty QUBO costs at most
+   as much as any route partition and its value is the cost of a walk assignment ... *)
+Theorem C08_seq_nonstrict_qubo_le : forall (st : pstate) (I : Seq.inst) (E : list (nat * nat)),
+  let S := S_seq (Z.of_nat (Seq.iL I)) (map (fun kv => acost (snd kv)) (arcs (Seq.ig I))) (Seq.ivc I) in
+  Inv (pg st) -> no_depot_loop st -> seq_view st I ->
+  (1 <= num_nodes st)%nat -> (3 <= Seq.iL I)%nat ->
+  (num_nodes st - 1 <= Seq.iV I)%nat -> (num_nodes st - 1 + 2 <= Seq.iL I)%nat ->
+  length (Seq.ivc I) = Seq.iV I ->
+  Seq.R_entries I = Ok E ->
+  forall R x, partition st R -> sys_qubo_min (seq_sys I E) S x ->
+    sys_qubo_value (seq_sys I E) S x <= total_cost st R /\
+    exists W, Seq.walk_assignment I W /\ seq_cost I W = sys_qubo_value (seq_sys I E) S x.
+Proof. intros st I E S. exact (seq_nonstrict_qubo_le_closed st I E). Qed.
+Print Assumptions C08_seq_nonstrict_qubo_le.
+
+(* ... and the minimum of the strict default-penalty QUBO (when the strict program is feasible) is the cost of
+   a route partition, hence at least the VRPTW optimum *)
+Theorem C08_seq_strict_qubo_ge : forall (st : pstate) (I : Seq.inst) (E : list (nat * nat)),
+  let S := S_seq (Z.of_nat (Seq.iL I)) (map (fun kv => acost (snd kv)) (arcs (Seq.ig I))) (Seq.ivc I) in
+  no_depot_loop st -> seq_view_strict st I ->
+  Seq_facts.strict_graph (Seq.ig I) -> Seq_facts.windows_ok (Seq.ig I) ->
+  capacity_free st -> 0 <= nlo (Path.node_at (pg st) 0) ->
+  (1 <= num_nodes st)%nat -> (3 <= Seq.iL I)%nat ->
+  length (Seq.ivc I) = Seq.iV I ->
+  Seq.R_entries I = Ok E ->
+  (exists z v, seq_solution I z v) ->
+  forall x, sys_qubo_min (seq_sys I E) S x ->
+    exists R, partition st R /\ total_cost st R = sys_qubo_value (seq_sys I E) S x.
+Proof. intros st I E S. exact (seq_strict_qubo_ge_closed st I E). Qed.
+Print Assumptions C08_seq_strict_qubo_ge.
+
+(* the same for the objects the two constructors build on the VRPTW graph (vehicle_cost = V zeros): the only
+   hypotheses left are on the VRPTW and on V, L *)
+Theorem C08_seq_nonstrict_qubo_le_constructor :
+  forall (st : pstate) (g' : graph) (V L : nat) (vc : list Z) (E : list (nat * nat)),
+  let I := Seq.mkInst g' V L vc in
+  let S := S_seq (Z.of_nat L) (map (fun kv => acost (snd kv)) (arcs g')) vc in
+  Inv (pg st) -> (1 <= num_nodes st)%nat -> no_depot_loop st ->
+  Seq.seq_init false (pg st) = Ok g' -> (forall k, nth k vc 0 = 0) -> length vc = V ->
+  (3 <= L)%nat -> (num_nodes st - 1 <= V)%nat -> (num_nodes st - 1 + 2 <= L)%nat ->
+  Seq.R_entries I = Ok E ->
+  forall R x, partition st R -> sys_qubo_min (seq_sys I E) S x ->
+    sys_qubo_value (seq_sys I E) S x <= total_cost st R /\
+    exists W, Seq.walk_assignment I W /\ seq_cost I W = sys_qubo_value (seq_sys I E) S x.
+Proof. intros st g' V L vc E I S. exact (seq_nonstrict_qubo_le_constructor st g' V L vc E). Qed.
+Print Assumptions C08_seq_nonstrict_qubo_le_constructor.
+
+Theorem C08_seq_strict_qubo_ge_constructor :
+  forall (st : pstate) (g' : graph) (V L : nat) (vc : list Z) (E : list (nat * nat)),
+  let I := Seq.mkInst g' V L vc in
+  let S := S_seq (Z.of_nat L) (map (fun kv => acost (snd kv)) (arcs g')) vc in
+  Inv (pg st) -> (1 <= num_nodes st)%nat -> no_depot_loop st ->
+  Seq.seq_init true (pg st) = Ok g' -> (forall k, nth k vc 0 = 0) -> length vc = V ->
+  capacity_free st -> 0 <= nlo (Path.node_at (pg st) 0) -> (3 <= L)%nat ->
+  Seq.R_entries I = Ok E ->
+  (exists z v, seq_solution I z v) ->
+  forall x, sys_qubo_min (seq_sys I E) S x ->
+    exists R, partition st R /\ total_cost st R = sys_qubo_value (seq_sys I E) S x.
+Proof. intros st g' V L vc E I S. exact (seq_strict_qubo_ge_constructor st g' V L vc E). Qed.
+Print Assumptions C08_seq_strict_qubo_ge_constructor.
 
 (* capacity_free holds e.g. when all demands are 0 and 0 <= initial loading <= capacity (the instances of
    the runtime check) *)
@@ -437,13 +592,15 @@ Example C08_example_seq_strict :
 Proof.
   destruct C08_example_common_hypotheses as (HI & Hl & Hc & Hd & Hn).
   destruct C08_example_optimum as (_ & _ & Hopt & Hcost).
-  assert (Hview : seq_view_strict ex_st ex_sseq).
+  assert (Hinit : Seq.seq_init true (pg ex_st) = Ok ex_sseq_graph) by (vm_compute; reflexivity).
+  destruct (C08_seq_strict_view_of_constructor ex_st ex_sseq_graph 2 4 [0; 0] HI) as (Hview & Hsg & Hw);
+    [vm_compute; discriminate | exact Hinit | intros v; destruct v as [|[|[|v]]]; reflexivity |].
+  change (Seq.mkInst ex_sseq_graph 2 4 [0; 0]) with ex_sseq in Hview.
+  change ex_sseq_graph with (Seq.ig ex_sseq) in Hsg, Hw.
+  (* (the boolean tests agree: seq_view_strict_check, strict_graphb, windows_okb) *)
+  assert (Hview' : seq_view_strict ex_st ex_sseq).
   { apply seq_view_strict_check; try (vm_compute; reflexivity).
     intros v. destruct v as [|[|[|v]]]; reflexivity. }
-  assert (Hsg : Seq_facts.strict_graph (Seq.ig ex_sseq))
-    by (apply Seq_facts.strict_graphb_true; vm_compute; reflexivity).
-  assert (Hw : Seq_facts.windows_ok (Seq.ig ex_sseq))
-    by (apply Seq_facts.windows_okb_true; vm_compute; reflexivity).
   assert (Hd0 : 0 <= nlo (Path.node_at (pg ex_st) 0)) by (rewrite Hd; lia).
   assert (Hok : Seq_facts.seq_ok ex_sseq).
   { destruct Hview as (Hnodes & Hkeys & H00 & _). apply (view_seq_ok ex_st ex_sseq Hnodes Hkeys H00). rewrite Hn; lia. }
@@ -456,7 +613,7 @@ Proof.
     - intros n H1 H2. change (Seq.iN ex_sseq) with (length (nodes ex_sseq_graph)) in H2.
       assert (E : length (nodes ex_sseq_graph) = 3%nat) by (vm_compute; reflexivity). rewrite E in H2.
       destruct n as [|[|[|n]]]; try lia; vm_compute; reflexivity. }
-  split; [vm_compute; reflexivity|]. split; [exact Hview|]. split; [exact Hsg|]. split; [exact Hw|].
+  split; [exact Hinit|]. split; [exact Hview|]. split; [exact Hsg|]. split; [exact Hw|].
   split; [exact HW|].
   assert (Hge : forall x v, seq_solution ex_sseq x v -> 9 <= v).
   { intros x v Hx.
@@ -470,14 +627,56 @@ Proof.
   apply (walk_solution ex_st ex_sseq Hnodes Hkeys H00); [rewrite Hn; lia | simpl; lia | exact HW].
 Qed.
 
-(* the extra hypothesis of the two _partial QUBO theorems holds on the example objects with the
-   implementation's S = S_seq(L, arc costs, vehicle costs) *)
-Example C08_example_seq_qubo_hypothesis :
-  (exists E, Seq.R_entries ex_seq = Ok E) /\
-  coeff_sum (Seq.num_variables ex_seq) (Seq.cvec ex_seq) (Seq.Qo ex_seq)
-    <= S_seq 4 (map (fun kv => acost (snd kv)) (arcs ex_seq_graph)) [0; 0] /\
-  coeff_sum (Seq.num_variables ex_sseq) (Seq.cvec ex_sseq) (Seq.Qo ex_sseq)
-    <= S_seq 4 (map (fun kv => acost (snd kv)) (arcs ex_sseq_graph)) [0; 0].
+(* the sequence QUBO theorems on the two constructor-built example objects, S = S_seq 4 (arc costs) [0; 0]:
+   every minimiser of the non-strict QUBO has value <= 9 and every minimiser of the strict QUBO has value >= 9
+   (the VRPTW optimum) *)
+Example C08_example_seq_qubo :
+  (exists E, Seq.R_entries ex_seq = Ok E) /\ (exists E, Seq.R_entries ex_sseq = Ok E) /\
+  length (Seq.ivc ex_seq) = Seq.iV ex_seq /\ length (Seq.ivc ex_sseq) = Seq.iV ex_sseq /\
+  (forall E x, Seq.R_entries ex_seq = Ok E ->
+     let S := S_seq 4 (map (fun kv => acost (snd kv)) (arcs ex_seq_graph)) [0; 0] in
+     sys_qubo_min (seq_sys ex_seq E) S x -> sys_qubo_value (seq_sys ex_seq E) S x <= 9) /\
+  (forall E x, Seq.R_entries ex_sseq = Ok E ->
+     let S := S_seq 4 (map (fun kv => acost (snd kv)) (arcs ex_sseq_graph)) [0; 0] in
+     sys_qubo_min (seq_sys ex_sseq E) S x -> 9 <= sys_qubo_value (seq_sys ex_sseq E) S x).
 Proof.
-  split; [exact (Seq_facts.R_ok ex_seq)|]. split; vm_compute; discriminate.
+  destruct C08_example_common_hypotheses as (HI & Hl & Hc & Hd & Hn).
+  destruct C08_example_optimum as (_ & _ & Hopt & Hcost).
+  destruct C08_example_seq_nonstrict as (Hinit & _ & _).
+  destruct C08_example_seq_strict as (Hsinit & _ & _ & _ & _ & (z & Hz) & _).
+  assert (Hvc : forall k, nth k [0; 0] 0 = 0) by (intros k; destruct k as [|[|[|k]]]; reflexivity).
+  assert (Hd0 : 0 <= nlo (Path.node_at (pg ex_st) 0)) by (rewrite Hd; lia).
+  assert (H1 : (1 <= num_nodes ex_st)%nat) by (rewrite Hn; lia).
+  assert (H3 : (3 <= 4)%nat) by lia.
+  assert (HV : (num_nodes ex_st - 1 <= 2)%nat) by (rewrite Hn; simpl; lia).
+  assert (HL : (num_nodes ex_st - 1 + 2 <= 4)%nat) by (rewrite Hn; simpl; lia).
+  split; [exact (Seq_facts.R_ok ex_seq)|]. split; [exact (Seq_facts.R_ok ex_sseq)|].
+  split; [reflexivity|]. split; [reflexivity|]. split.
+  - intros E x HE S Hx.
+    destruct (C08_seq_nonstrict_qubo_le_constructor ex_st ex_seq_graph 2 4 [0; 0] E HI H1 Hl Hinit Hvc eq_refl
+                H3 HV HL HE [[0; 1; 2; 0]]%nat x (proj1 Hopt) Hx) as [Hle _].
+    rewrite Hcost in Hle. exact Hle.
+  - intros E x HE S Hx.
+    destruct (C08_seq_strict_qubo_ge_constructor ex_st ex_sseq_graph 2 4 [0; 0] E HI H1 Hl Hsinit Hvc eq_refl
+                Hc Hd0 H3 HE (ex_intro _ z (ex_intro _ 9 Hz)) x Hx) as (R & HR & Hv).
+    assert (Hg : 9 <= total_cost ex_st R) by (rewrite <- Hcost; apply Hopt; exact HR).
+    rewrite Hv in Hg. exact Hg.
+Qed.
+
+(* the arc-based QUBO of the example object on the grid 0..5: its minimum over binary vectors is 9, attained
+   at the vector of the chain D -> A -> B -> D *)
+Example C08_example_arc_qubo :
+  (exists x, Compose_arc_facts.arc_qubo_min ex_arc x) /\
+  (forall x, Compose_arc_facts.arc_qubo_min ex_arc x -> Compose_arc_facts.arc_default_value ex_arc x = 9).
+Proof.
+  destruct C08_example_common_hypotheses as (HI & Hl & Hc & Hd & _).
+  destruct C08_example_optimum as (_ & _ & Hopt & Hcost).
+  destruct C08_example_arc as (Hnd & Hpos & Hgc & (xl & Hxl) & _).
+  destruct (C08_arc_qubo ex_st ex_arc eq_refl HI Hnd Hl Hd Hpos Hc Hgc) as (Hmin & _ & Hval).
+  { exists [[0; 1; 2; 0]]%nat. apply Hopt. }
+  split.
+  - destruct (vec_of_arc_solution ex_arc xl 9 Hxl) as [Hb Et].
+    exists (Zvec_of xl). apply Hmin. split; [exact Hb|].
+    exists [[0; 1; 2; 0]]%nat. split; [exact Hopt|]. rewrite Et, Hcost. exact Hxl.
+  - intros x Hx. rewrite (Hval x _ Hx Hopt). exact Hcost.
 Qed.
